@@ -429,6 +429,23 @@ func ruleC17_3(c *Ctx, r *Rep) {
 			r.Fail("C17.3", fmt.Sprintf("C17.3:float-duration#%d@%s", nf, c.Key(f)), ci.Pos(), "the stored-duration codec represents a duration (or its digits) as a float64 ("+ci.Common().StaticCallee().Name()+"): float64 has 53 bits of mantissa, so long durations with nanosecond detail do not survive storage exactly")
 		}
 	}
+	for _, f := range c.Funcs {
+		if c.PkgOf(f) != "internal/sqltypes" {
+			continue
+		}
+		for _, b := range f.Blocks {
+			for _, in := range b.Instrs {
+				cv, ok := in.(*ssa.Convert)
+				if !ok || kindOfBasic(cv.Type()) != "float" {
+					continue
+				}
+				if bt, isB := cv.X.Type().Underlying().(*types.Basic); isB && (bt.Kind() == types.Int64 || bt.Kind() == types.Uint64) {
+					nf++
+					r.Fail("C17.3", fmt.Sprintf("C17.3:float-duration#%d@%s", nf, c.Key(f)), cv.Pos(), "the stored-duration codec converts a 64-bit count (a duration) to float64: float64 has 53 bits of mantissa, so long durations with nanosecond detail do not survive storage exactly")
+				}
+			}
+		}
+	}
 	r.OK("C17.3", "C17.3:no-float-representation", 0, "no Duration.Seconds/Minutes/Hours, FormatFloat or ParseFloat in the codec")
 	if c.Fn("internal/sqltypes.ParsePostgreSQLInterval") == nil {
 		r.Fail("C17.3", "anchor:internal/sqltypes.ParsePostgreSQLInterval", 0, "codec entry point not found")
